@@ -88,6 +88,19 @@ CLAIMED = {
             "and out-of-range indices), compared field by field, checked for well-formedness, and copies are scribbled over and freed in all orders.",
             "IUPAC symbol table embedded in the harness; macro-name normalisation rule derived from the tree (180/180 match)",
             "DESIGN.md 2/C15"),
+    "C16": ("generated call histories (seeded, with bursts of related calls) executed in-process vs each step alone in a freshly forked process (differential), plus invariants over the history: data-segment checksum, locale, cwd, streams, kept error objects",
+            "Every step of every generated history must return the bit-identical encoded result it returns in a process that never called the "
+            "library before; an FNV hash over all data/bss/rodata sections contributed by libxrl.a (taken from the link map, ~16 MB) must be equal "
+            "before and after, as must locale strings, working directory, stdout/stderr (deprecation lines excepted) and every error object "
+            "obtained on the way.",
+            "insertions into the built-in crystal collection are exempt by the property and not generated; reference process = child forked from a pristine parent",
+            "DESIGN.md 2/C16"),
+    "C17": ("generated thread mixes under ThreadSanitizer (happens-before race detection) with a serial-equivalence oracle and a link-level setlocale observer",
+            "8/12/16 threads execute generated call lists (incl. failing, parsing, allocating and identical simultaneous queries) behind a barrier on "
+            "a TSan build under several seeded yield patterns: no TSan report, every call's result identical to the serial run, no locale change "
+            "while workers are live.",
+            "TSan cannot see inside uninstrumented libc (only setlocale is observed separately); liveness not addressed",
+            "DESIGN.md 2/C17"),
     "C18": ("generated differential testing: a dispatch table calling every xrlpp wrapper is generated from the C++ header and run side by side with the C interpreter over the C03 argument sweep (ASan+UBSan+LSan)",
             "Every _XRL_FUNCTION instantiation (both string call forms) and every hand-written wrapper / class is executed on the same generated "
             "argument tuples as the C function: values and object fields bit-identical, exception type by error code, what() == C message, heap "
